@@ -401,8 +401,41 @@ func checkLogs(w *world20, programs [][]Op20, pre []Op20) (problems []string) {
 			bad("%v returned errors", cr.op)
 		}
 	}
+	// the registry the calls leave behind is one some sequential order leaves behind: probed with one
+	// publish per id after everything has returned (worker -2)
+	lo, hi, always, ever := sequentialOutcomes(programs, pre)
+	firstProbe := -1
+	for ci, cr := range rec.calls {
+		if cr.worker == -2 && firstProbe < 0 {
+			firstProbe = ci
+		}
+	}
+	if firstProbe >= 0 {
+		for _, cr := range rec.calls {
+			if cr.sub == nil || cr.worker == -2 {
+				continue
+			}
+			key := callKey(cr.worker, indexInProgram(rec, cr))
+			reached, probed := false, false
+			for _, id := range ids20 {
+				if cr.sub.Match(id) {
+					probed = true
+				}
+			}
+			for _, sd := range cr.sub.sends {
+				if sd.call >= firstProbe {
+					reached = true
+				}
+			}
+			switch {
+			case probed && always[key] && !reached:
+				bad("subscriber #%d (%q, registered by %v) is registered at the end of every sequential order of the calls, but an event published after all calls returned did not reach it", cr.sub.num, cr.sub.pattern, cr.op)
+			case !ever[key] && reached:
+				bad("subscriber #%d (%q, registered by %v) is gone at the end of every sequential order of the calls, but an event published after all calls returned reached it", cr.sub.num, cr.sub.pattern, cr.op)
+			}
+		}
+	}
 	// returned counts lie within what some sequential order of the same calls allows
-	lo, hi := sequentialBounds(programs, pre)
 	for _, cr := range rec.calls {
 		if cr.worker < 0 || cr.op.Kind == "sub" {
 			continue
@@ -433,11 +466,23 @@ func indexInProgram(rec *recorder, cr *callRec) int {
 // sequentialBounds enumerates every interleaving of the programs at call granularity on the
 // list model and returns the minimum and maximum count each call can return.
 func sequentialBounds(programs [][]Op20, pre []Op20) (lo, hi map[string]int) {
+	lo, hi, _, _ = sequentialOutcomes(programs, pre)
+	return
+}
+
+// sequentialOutcomes is sequentialBounds plus the final registry: the subscribers (named by the
+// call that registered them) that are registered at the end of EVERY sequential order, and those
+// registered at the end of at least one.
+func sequentialOutcomes(programs [][]Op20, pre []Op20) (lo, hi map[string]int, always, ever map[string]bool) {
 	lo, hi = map[string]int{}, map[string]int{}
+	ever = map[string]bool{}
+	leaves := 0
+	liveCount := map[string]int{}
 	type msub struct {
 		pattern  string
 		wildcard bool
 		fail     bool
+		key      string
 	}
 	match := func(s msub, id string) bool {
 		if s.wildcard {
@@ -446,10 +491,11 @@ func sequentialBounds(programs [][]Op20, pre []Op20) (lo, hi map[string]int) {
 		return id == s.pattern
 	}
 	var rec func(pos []int, live []msub)
+	curKey := ""
 	apply := func(op Op20, live []msub) ([]msub, int) {
 		switch op.Kind {
 		case "sub":
-			return append(append([]msub{}, live...), msub{op.ID, op.Wildcard, op.Fail}), 0
+			return append(append([]msub{}, live...), msub{op.ID, op.Wildcard, op.Fail, curKey}), 0
 		case "pub":
 			cnt := 0
 			var keep []msub
@@ -477,11 +523,26 @@ func sequentialBounds(programs [][]Op20, pre []Op20) (lo, hi map[string]int) {
 		}
 	}
 	rec = func(pos []int, live []msub) {
+		done := true
+		for w := range programs {
+			if pos[w] < len(programs[w]) {
+				done = false
+			}
+		}
+		if done {
+			leaves++
+			for _, m := range live {
+				liveCount[m.key]++
+				ever[m.key] = true
+			}
+			return
+		}
 		for w := range programs {
 			if pos[w] >= len(programs[w]) {
 				continue
 			}
 			op := programs[w][pos[w]]
+			curKey = callKey(w, pos[w])
 			nl, cnt := apply(op, live)
 			key := callKey(w, pos[w])
 			if cur, ok := lo[key]; !ok || cnt < cur {
@@ -496,10 +557,17 @@ func sequentialBounds(programs [][]Op20, pre []Op20) (lo, hi map[string]int) {
 		}
 	}
 	var live []msub
-	for _, op := range pre {
+	for i, op := range pre {
+		curKey = callKey(-1, i)
 		live, _ = apply(op, live)
 	}
 	rec(make([]int, len(programs)), live)
+	always = map[string]bool{}
+	for k, n := range liveCount {
+		if n == leaves {
+			always[k] = true
+		}
+	}
 	return
 }
 
@@ -590,6 +658,9 @@ func runOne20(c *c20Case) (ds []hx.Discrepancy, trace []string, fanout []int) {
 	if deadlock {
 		return []hx.Discrepancy{{Kind: "deadlock", Detail: "a worker neither reached its next yield point nor returned within 10s\n" + describe20(c, trace)}}, trace, fanout
 	}
+	for _, id := range ids20 {
+		w.do(-2, Op20{Kind: "pub", ID: id})
+	}
 	for _, p := range checkLogs(w, c.Programs, c.Pre) {
 		ds = append(ds, hx.Discrepancy{Kind: "registry", Detail: p + "\n" + describe20(c, trace)})
 	}
@@ -655,6 +726,11 @@ func TestC20(t *testing.T) {
 		{Pre: []Op20{{Kind: "sub", ID: "a"}}, Programs: [][]Op20{{{Kind: "pub", ID: "a"}, {Kind: "pub", ID: "a"}}, {{Kind: "unsub", ID: "a"}}, {{Kind: "sub", ID: "a"}}}},
 		{Programs: [][]Op20{{{Kind: "sub", ID: "a"}, {Kind: "pub", ID: "a"}}, {{Kind: "sub", ID: "", Wildcard: true, Fail: true}, {Kind: "pub", ID: "a1"}}, {{Kind: "unsub", ID: "a"}}}},
 		{Pre: []Op20{{Kind: "sub", ID: "a", Fail: true}, {Kind: "sub", ID: "b"}}, Programs: [][]Op20{{{Kind: "pub", ID: "a"}}, {{Kind: "pub", ID: "a"}}, {{Kind: "pub", ID: "b"}, {Kind: "unsub", ID: "b"}}}},
+		// the registry changes around a failed subscriber between the two phases of the publish that failed on it:
+		// others registered before it are removed (it moves down), others are added (it stays), both
+		{Pre: []Op20{{Kind: "sub", ID: "a"}, {Kind: "sub", ID: "b", Fail: true}}, Programs: [][]Op20{{{Kind: "pub", ID: "b"}}, {{Kind: "unsub", ID: "a"}}}},
+		{Pre: []Op20{{Kind: "sub", ID: "a"}, {Kind: "sub", ID: "a1"}, {Kind: "sub", ID: "b", Fail: true}, {Kind: "sub", ID: "b"}}, Programs: [][]Op20{{{Kind: "pub", ID: "b"}}, {{Kind: "unsub", ID: "a"}, {Kind: "unsub", ID: "a1"}}}},
+		{Pre: []Op20{{Kind: "sub", ID: "a"}, {Kind: "sub", ID: "b", Fail: true}, {Kind: "sub", ID: "a", Fail: true}}, Programs: [][]Op20{{{Kind: "pub", ID: "b"}}, {{Kind: "pub", ID: "a"}}, {{Kind: "sub", ID: "b"}}}},
 	}
 	exhaustiveRuns := 0
 	allComplete := true
